@@ -1,5 +1,5 @@
 (* C05 - Values a column cannot represent are rejected, never silently altered. *)
-From Verif Require Import Conv Conv_proofs SerializerTables SerTablesSpec DictBuilder UnionBuilder Builder_proofs Refine_proofs.
+From Verif Require Import Conv Conv_proofs SerializerTables SerTablesSpec DictBuilder UnionBuilder Builder_proofs Refine_proofs Progress_proofs.
 
 (* Full-strength statement (kept visible): on every serialization cell of the run the C01 oracle
    is evaluated inside Coq (accepted => the arrays decode to exactly interp(value); a value outside
@@ -104,6 +104,14 @@ Proof.
   intros v f b b' lvs Hs Hw Hc Hp. destruct (push_sound v f b b' lvs Hs Hw Hc Hp) as (lv & Hi & Hc' & _). exists lv. split; assumption.
 Qed.
 
+(* ... and no spurious rejection at the fixed-width leaves: every value that the documented mapping of a Boolean / integer / float /
+   temporal-integer column contains - through any Option / newtype layers, a null into a nullable column included - is accepted,
+   whatever the state of the builder (`wt`: the numbers a serde value of each width can carry).  With C05_unrepresentable_is_rejected:
+   at these columns the builder accepts EXACTLY the documented mapping.  (Variable-width and nested builders additionally need room in
+   their offset type: no general statement.) *)
+Theorem C05_fixed_width_total : forall v f b lv, fixed_width b -> shape f b -> wt v -> interp f v = IOk lv -> exists b', push v b = Ok b'.
+Proof. exact fixed_width_progress. Qed.
+
 (* non-vacuity: a u16 above i8::MAX two levels down (inside a list inside a struct) is outside the mapping *)
 Example C05_nested_out_of_range :
   let f := mkField (b "r") (DStruct [mkField (b "l") (DList KLargeList (mkField (b "element") (DPrim (PInt I8)) false)) false]) false in
@@ -111,6 +119,7 @@ Example C05_nested_out_of_range :
 Proof. intros f lv. vm_compute. discriminate. Qed.
 
 Print Assumptions C05_unrepresentable_is_rejected.
+Print Assumptions C05_fixed_width_total.
 Print Assumptions C05_ser_int_exact.
 Print Assumptions C05_de_exact.
 Print Assumptions C05_union_unknown_variant.
